@@ -83,11 +83,16 @@ def same_bound(a, b):
 
 
 def make(kind, pars, idx):
+    given = list(idx)
     if kind == "gauss":
-        return GaussianPrior(mean=[p[0] for p in pars], sigma=[p[1] for p in pars], variable_indices=list(idx))
-    if kind == "exp":
-        return ExponentialPrior(beta=[p[0] for p in pars], variable_indices=list(idx))
-    return UniformPrior(lower=[p[0] for p in pars], upper=[p[1] for p in pars], variable_indices=list(idx))
+        obj = GaussianPrior(mean=[p[0] for p in pars], sigma=[p[1] for p in pars], variable_indices=given)
+    elif kind == "exp":
+        obj = ExponentialPrior(beta=[p[0] for p in pars], variable_indices=given)
+    else:
+        obj = UniformPrior(lower=[p[0] for p in pars], upper=[p[1] for p in pars], variable_indices=given)
+    # the index list handed over is the caller's work list: it is refilled here (reversed and shifted) once the prior is built
+    given[:] = [i + 1 for i in reversed(given)]
+    return obj
 
 
 # ------------------------------------------------------------------ strategies
